@@ -25,6 +25,9 @@ PARAMS = [
     ('trypsin', 'auto', 1, 500., 7, 25),
 ]
 OPS = ['gen', 'genf', 'upd', 'updf', 'load']
+# 'stale': environment event, not a command - the recorded versions no longer match the running environment (index written by
+# another Python / Biopython / moPepGen); only used in the 'stale' histories below
+STALE_VERSIONS = [('python', '0.0.0'), ('biopython', '0.1'), ('mopepgen', '1.2.9')]
 
 
 def key_of(p):
@@ -109,15 +112,43 @@ def run_case(spec):
         def bad(kind, msg):
             if len(viol) < 6:
                 viol.append({'kind': kind, 'msg': f'history {trace}: {msg}'})
+        stale = False
         for op, pi in hist:
             p = PARAMS[pi]
             k = key_of(p)
+            if op == 'stale':
+                if exists:
+                    mdp = f'{idx}/metadata.json'
+                    md = json.load(open(mdp))
+                    field, val = STALE_VERSIONS[pi % len(STALE_VERSIONS)]
+                    md['version'][field] = val
+                    open(mdp, 'w').write(json.dumps(md))
+                    stale = True
+                    trace.append(('stale', field, val))
+                    counters['stale_events'] = counters.get('stale_events', 0) + 1
+                continue
             before = dir_state(idx)
             nonempty = os.path.isdir(idx) and bool(os.listdir(idx))
             res = run_op(op, p, wd, idx)
             counters['ops'] += 1
             trace.append((op, pi, res[0] if res[0] != 'ok' else 'ok'))
             after = dir_state(idx)
+            if stale and op != 'genf':
+                # an index whose recorded versions do not match must be rejected, never used or extended
+                counters['stale_ops'] = counters.get('stale_ops', 0) + 1
+                if op == 'gen':
+                    if res != ('exit', 1):
+                        bad('generate-on-existing-not-refused', f'{res}')
+                elif res[0] == 'ok':
+                    bad('mismatching-version-accepted', f'{op} on an index with mismatching recorded version succeeded')
+                elif res[0] == 'error' and 'nvalid' not in res[1]:
+                    bad('mismatching-version-wrong-error', f'{op}: {res[1]}')
+                if after != before:
+                    bad('rejected-operation-changed-directory', f'{op}: {sorted(set(after.items()) ^ set(before.items()))[:3]}')
+                continue
+            if stale and op == 'genf':
+                counters['stale_rebuilds'] = counters.get('stale_rebuilds', 0) + 1
+                stale = False       # a forced rebuild writes everything anew, including the version record
             if op in ('gen', 'genf'):
                 if op == 'gen' and nonempty:
                     counters['refusals'] += 1
@@ -207,7 +238,7 @@ def run_case(spec):
                     if not os.path.exists(f'{idx}/{f}'):
                         bad('metadata-names-missing-file', f)
         # ---------- tampered versions
-        if exists and not viol and spec.get('tamper', True):
+        if exists and not viol and not stale and spec.get('tamper', True):
             mdp = f'{idx}/metadata.json'
             orig = open(mdp).read()
             md = json.loads(orig)
@@ -257,10 +288,26 @@ def check(rep, tier, seed, specs=None, n_override=None):
             ops = r.choice(allh)
             hist = [(op, r.randrange(len(PARAMS))) for op in ops]
             specs.append({'seed': common.hash64('c12', 'fixed' if i < n // 2 else seed, i), 'history': hist})
+        # histories with a version-mismatch event between the commands
+        ns = max(8, n // 4)
+        for i in range(ns):
+            r = fixed if i < ns // 2 else rng
+            pre = [(r.choice(['gen', 'genf']), r.randrange(len(PARAMS)))]
+            if r.random() < 0.4:
+                pre.append((r.choice(['upd', 'updf']), r.randrange(len(PARAMS))))
+            post = [(r.choice(OPS), r.randrange(len(PARAMS))) for _ in range(r.randint(1, 3))]
+            if r.random() < 0.6:
+                j = r.randrange(len(post))
+                post[j] = ('genf', post[j][1])
+                post.insert(j + 1, ('load', post[j][1]))
+            specs.append({'seed': common.hash64('c12s', 'fixed' if i < ns // 2 else seed, i),
+                          'history': pre + [('stale', r.randrange(3))] + post})
         # a few canonical histories always present
         for h in ([('gen', 0), ('load', 1), ('load', 2)], [('gen', 0), ('upd', 1)], [('gen', 2), ('upd', 0), ('load', 0), ('load', 2)],
                   [('gen', 0), ('gen', 3)], [('gen', 0), ('genf', 3), ('load', 0)], [('gen', 3), ('updf', 3), ('load', 3)],
-                  [('upd', 0), ('gen', 0), ('load', 0)], [('gen', 0), ('upd', 3), ('upd', 4), ('load', 3)]):
+                  [('upd', 0), ('gen', 0), ('load', 0)], [('gen', 0), ('upd', 3), ('upd', 4), ('load', 3)],
+                  [('gen', 0), ('stale', 1), ('load', 0), ('genf', 3), ('load', 3), ('upd', 0), ('load', 0)],
+                  [('gen', 2), ('stale', 2), ('upd', 0), ('updf', 2), ('genf', 2), ('load', 2)]):
             specs.append({'seed': common.hash64('c12h', str(h)), 'history': h})
     results, lost = common.shard_run('c12', specs, timeout_s=1500 if quick else 6 * 3600)
     rep.rule = ('operation histories of length 2-4 over {generateIndex, generateIndex --force, updateIndex, updateIndex --force, load_references '
@@ -268,8 +315,10 @@ def check(rep, tier, seed, specs=None, n_override=None):
                 'reference, executed in-process and compared after every operation with a dictionary model params-key -> definitional pool: loads return '
                 'exactly the model pool or fail, refused operations leave the directory byte-identical, other pools stay byte-identical, metadata lists '
                 'exactly the registered pools, genome/annotation/proteome/coding transcripts load back equal; finally a tampered metadata version must be '
-                'rejected. non-trivial = history executed; distinct = (operation sequence, #keys, refusal seen, hit/miss loads).')
+                'rejected. A quarter of the histories contain a version-mismatch event (metadata records another python / biopython / moPepGen '
+                'version, as if written by another environment): afterwards load / update / update --force must be rejected without touching the '
+                'directory, generateIndex refused, and generateIndex --force must rebuild an index that loads again. non-trivial = history executed; distinct = (operation sequence, #keys, refusal seen, hit/miss loads).')
     rep.absorb(results, lost)
-    for k in ('ops', 'loads_hit', 'loads_miss', 'refusals', 'tamper_runs'):
+    for k in ('ops', 'loads_hit', 'loads_miss', 'refusals', 'tamper_runs', 'stale_ops', 'stale_rebuilds'):
         if not rep.counters.get(k):
             rep.inconclusive.append(f'monitor {k} had zero evaluations')
